@@ -2,6 +2,7 @@
 import os, sys
 sys.path.insert(0, os.path.dirname(os.path.abspath(__file__)))
 import zfgen
+import zfcoq
 from zfgen import hx
 import c24
 
@@ -17,6 +18,16 @@ def gen(rng, tier):
         data, items = zfgen.gen_file(rng, caseless=caseless, nlines=nl)
         expected = " ; ".join(items + ["after=0"])
         yield f"zfx {c24.modes(rng)} {hx(data)} {hx(expected.encode())}"
+
+
+def gen_render(rng, tier):
+    """Abstract lines + legal `choices` in the shape of Spec/ZfRenderS.v (checks/zfcoq.py), rendered by the Python mirror; the
+    runners re-render them with the extracted Coq renderer."""
+    n = 4000 if tier == "quick" else 100000
+    for i in range(n):
+        nl = rng.choice([1, 2, 3, 5, 8, 12]) if rng.random() < 0.97 else rng.randint(20, 40)
+        lines, data, expected = zfcoq.gen_file(rng, nlines=nl)
+        yield f"zrc {c24.modes(rng)} {hx(data)} {hx(expected.encode())} {zfcoq.ser_lines(lines)}"
 
 
 def nontrivial(case, impl, model, oracle):
@@ -37,7 +48,8 @@ def finding_matches(entry, case, impl, model, oracle):
 CHECK = {
     "property": "C23",
     "props": "Props/C23.v",
-    "theorems": ["c23_fields_partial"],
+    "theorems": ["c23_fields_disjoint", "c23_escape", "c23_character_string", "c23_name", "c23_uint", "c23_class", "c23_type",
+                 "c23_ipv4", "c23_ipv6", "c23_navigation", "c23_line_end", "c23_rdata", "c23_record_line", "c23_line", "c23_file_roundtrip", "c23_file_roundtrip_records_only"],
     "allowed_axioms": [],
     "suites": [
         {"name": "zonefile", "runner_name": "C24_run", "impl_bin": "impl_c24", "extract": "Extract/ExC24.v", "driver": "run_c24.ml",
@@ -49,11 +61,24 @@ CHECK = {
                   "comments, parentheses spanning lines, quoted/unquoted strings, \\c and \\DDD escapes (incl. escaped and quoted line feeds), IPv6 text forms, "
                   "leading zeros/plus signs, LF/CRLF, final line with or without line ending; expected = the generating records with their line numbers; "
                   "implementation and model are each compared with it and with each other; non-trivial = at least one record and the expected parse was produced")},
+        {"name": "render", "runner_name": "C24_run", "impl_bin": "impl_c24", "extract": "Extract/ExC24.v", "driver": "run_c24.ml",
+         "gen": gen_render, "nontrivial": nontrivial, "classify": classify, "finding_matches": finding_matches,
+         "exhaustive": {"quick": False, "thorough": False},
+         "rule": ("seeded abstract files WITH explicit `choices` values in the shape of the Coq specification Spec/ZfRenderS.v (every constructor: owner forms, "
+                  "TcNone/T/C/TC/CT, mnemonic case flags and TYPEnnn/CLASSnnn, separators built from blank runs and ( ) line-break comment items, per-octet "
+                  "ERaw/EChar/EDec, quoted/unquoted strings, '+'/leading zeros, IPv6 dropped zeros and case, \\# with word breaks and digit case, all four line "
+                  "terminators, $ORIGIN/$TTL in any case), rendered by the Python mirror checks/zfcoq.py; the model-side runner decodes the choices, renders them "
+                  "with the EXTRACTED Coq renderer and requires: same octets, Coq file_ok = true, Coq number_lines = the Python expectation; then the real "
+                  "parser and the model must both return exactly what Coq's number_lines denotes (the hypothesis space of c23_file_roundtrip exercised on the "
+                  "real code); non-trivial = at least one record and the expected parse was produced")},
     ],
     "trusted_base": [
         "Coq 8.16.1 kernel; axioms: none",
-        "the Python renderer checks/zfgen.py is the independent specification of what a rendered file denotes (it never reads the parser); "
-        "a Coq renderer with a parse-of-render theorem is NOT part of this check (see docs/C23.md): the proved part is c23_fields_partial",
+        "Spec/ZfRenderS.v (the Coq renderer: choices, legality file_ok, render, number_lines) is the specification of the theorems; it covers every "
+        "RR type the parser has a syntax for (incl. WKS), $ORIGIN/$TTL/$INCLUDE lines, IPv6 text with or without '::' "
+        "(no embedded IPv4), no raw CR in unquoted tokens; the WKS bit order and the set of mnemonics follow the implementation (docs/C23.md)",
+        "the Python renderer checks/zfgen.py is the independent specification of the differential run (it never reads the parser) and covers "
+        "the presentations the Coq renderer leaves out (the embedded-IPv4 form of IPv6 text)",
         "the model of the parser (Model/Zf*.v, shared with C24) and its correspondence to the code (tested, not proved)",
         "extraction: ExtrOcamlBasic only; OCaml 4.13.1 ocamlopt",
     ],
@@ -61,13 +86,16 @@ CHECK = {
 }
 
 MANIFEST = {
-    "level_text": ("Partial proof + differential check: Coq theorem c23_fields_partial (a token accepted as a TTL is never accepted as a CLASS or a TYPE, and a token accepted "
-                   "as a CLASS is never accepted as a TYPE, so the try-in-order of parse_ttl_and_class is the unique reading; decimal \\DDD escapes decode to the octet they "
-                   "name) about the model shared with C24 (which is proved total); the whole-file statement parse(render choices records) = records is checked, not "
-                   "proved: an independent Python renderer makes random presentation choices for every field and the real parser and the extracted model must both return "
-                   "exactly the generating records with their line numbers."),
-    "level_note": ("The whole-line / whole-file render-parse theorem of DESIGN.md is not proved (named gap). Trusted: the Python renderer as specification, the model/code "
-                   "correspondence, Coq kernel, extraction."),
-    "technique": "machine-checked proof in Coq (field-level, partial) + model/implementation/specification correspondence check on rendered files",
+    "level_text": ("Coq theorems (no axioms) about the executable model of the whole zone-file parser (shared with C24): Spec/ZfRenderS.v is an independent "
+                   "renderer of RFC 1035 section 5 files (abstract records / $ORIGIN / $TTL / blank lines + a `choices` value fixing owner form, TTL and class "
+                   "presence and order, mnemonic case or TYPEnnn/CLASSnnn, separators with blanks, tabs, parentheses, comments and LF/CRLF line breaks, quoted or "
+                   "unquoted strings, raw / \\c / \\DDD per octet, '+' and leading zeros, RFC 3597 \\# form with word breaks, comments, end of file); "
+                   "c23_file_roundtrip proves parse_all (render lines) = the denoted records in order with their line numbers, for EVERY legal choice; it rests on "
+                   "token-level (escapes, strings, names, integers, class/type, IPv4, IPv6), field-navigation, RDATA, record-line theorems. The model is tied to "
+                   "the code by a differential run in which an independent Python renderer makes random presentation choices and the real parser and the "
+                   "extracted model must both return exactly the generating records with their line numbers."),
+    "level_note": ("The Coq renderer does not cover: the embedded-IPv4 form of IPv6 text, raw CR in unquoted "
+                   "tokens (the Python renderer of the differential run does). Trusted: the model/code correspondence (tested), Coq kernel, extraction."),
+    "technique": "machine-checked proof in Coq (parse-of-render, all stages) + model/implementation/specification correspondence check on rendered files",
     "design_ref": "DESIGN.md §4 C23",
 }
